@@ -831,6 +831,15 @@ def _dump_tree(node, cellof):
     return ["?", cn]
 
 
+def _shape(d):
+    """A tree dump without the option flags (booleans) that copy() is known, and modelled, to reset."""
+    if isinstance(d, list):
+        if d and d[0] == "cyc":
+            return d[:3]          # the copy wraps the referenced object in one more IdentityHash (modelled)
+        return [_shape(x) for x in d if not isinstance(x, bool)]
+    return d
+
+
 def _dump_obj(o, cellof):
     from graphtage.object_set import IdentityHash
     from graphtage.utils import HashableCounter
@@ -1108,8 +1117,12 @@ def monitor(case, obs):
             else:
                 eq = r.get("copy_eq")
                 if eq is not True:
-                    sfx = "/cyclicref" if _contains_cyc(r["tree"]) else "/pyobj" if _contains_tag(r["tree"], "pyobj") else ""
-                    hit("copy-neq" + sfx, f"{entry}: copy() == tree is {eq!r}")
+                    # the two recorded findings are about node EQUALITY of placeholder / PyObj nodes: the copy itself is
+                    # node for node the tree; a copy that differs structurally is something else
+                    same = (_shape(cp) == _shape(r["tree"]))
+                    sfx = "/differs-structurally" if not same else \
+                        "/cyclicref" if _contains_cyc(r["tree"]) else "/pyobj" if _contains_tag(r["tree"], "pyobj") else ""
+                    hit("copy-neq" + sfx, f"{entry}: copy() == tree is {eq!r}" + ("" if same else "; the copy's structure differs from the tree's"))
                 if r.get("copy_toobj") != r.get("toobj") and not _contains_cyc(r["tree"]):
                     hit("copy-to_obj-neq", f"{entry}: copy().to_obj() differs from to_obj()")
     # identical through every entry point (same options, every entry whose domain contains the input)
